@@ -13,6 +13,45 @@ fn odd_target(rng: &mut Rng) -> Vec<u8> {
     t.to_vec()
 }
 
+/// Heads with 0..12 fields in random order containing 0..3 of the fields the library consumes.
+pub fn consumed_fields(ctx: &mut Ctx, rng: &mut Rng, idx: &mut u64) {
+    let n = if ctx.thorough() { 20_000 } else { 2_500 };
+    for _ in 0..n {
+        let mut fields: Vec<(String, String)> = Vec::new();
+        for (name, val) in [("Content-Type", "text/plain"), ("expect", "100-continue"), ("Transfer-Encoding", "chunked")] {
+            if rng.chance(1, 2) {
+                let nm: String = name.chars().map(|c| if rng.chance(1, 3) { c.to_ascii_lowercase() } else { c }).collect();
+                fields.push((nm, val.to_string()));
+                if rng.chance(1, 8) {
+                    fields.push((name.to_string(), val.to_string()));
+                }
+            }
+        }
+        for j in 0..rng.below(10) {
+            fields.push((format!("x-{}", rng.below(4)), format!("v{j}")));
+        }
+        for i in (1..fields.len()).rev() {
+            let j = rng.below(i as u64 + 1) as usize;
+            fields.swap(i, j);
+        }
+        let mut h = b"GET /c HTTP/1.1\r\n".to_vec();
+        for (n, v) in &fields {
+            h.extend_from_slice(format!("{n}: {v}\r\n").as_bytes());
+        }
+        h.extend_from_slice(b"\r\nTAIL");
+        *idx += 1;
+        if ctx.mine(*idx) {
+            emit(ctx, "c02", 8192, &[], &h, "eof", &[], 0);
+        }
+    }
+}
+
+pub fn run_c14r(ctx: &mut Ctx) {
+    let mut rng = Rng::new(ctx.seed.wrapping_add(14));
+    let mut idx = 0u64;
+    consumed_fields(ctx, &mut rng, &mut idx);
+}
+
 pub fn run(ctx: &mut Ctx) {
     let mut rng = Rng::new(ctx.seed.wrapping_add(2));
     let mut idx = 0u64;
@@ -87,6 +126,7 @@ pub fn run(ctx: &mut Ctx) {
             go!(&m);
         }
     }
+    consumed_fields(ctx, &mut rng, &mut idx);
     // every tchar as a one-byte method and field name; every VCHAR/SP/HT inside a value
     for &c in TCHARS {
         let s = [&[c][..], b" / HTTP/1.1\r\n", &[c][..], b": v\r\n\r\n"].concat();
